@@ -313,7 +313,7 @@ class SynthWorld:
         reg = self.ref.registered()
         cands = []
         for c in self.spec["classes"]:
-            if c["kind"] in ("data", "plain") and c["name"] in reg:
+            if c["kind"] in ("data", "plain") and c["name"] in reg and not c.get("inherit"):  # (an inherited constructor is shared)
                 for i, (fn, ft) in enumerate(c["fields"]):
                     base = ft[1] if ft[0] == "ann" else ft
                     if fn.startswith("f") and base[0] in ("int", "float", "str", "bool") and not (ft[0] == "ann" and ft[2][0].startswith("Dependent")):
